@@ -287,26 +287,38 @@ def one_time(s: int, shift: int) -> bool:
     return c_boundary(body)(s, shift)
 
 
-@obligation(tier="quick", parts=2, timeout=120, part_names=["signapp hash", "signapp message"],
+@obligation(tier="quick", parts=4, timeout=120,
+            part_names=["signapp hash", "signapp message", "signapp message -o (new file)", "signapp message -o (onto the authorization of another image)"],
             bounds="signapp's hash / message operations on the 9 catalogue images (symbolic selection): the printed hash / the hash inside "
-                   "the authorization message is SHA-256 over the areas in address order",
-            examples=[(0, dict(i=0)), (1, dict(i=4)), (0, dict(i=2))])
+                   "the authorization message / the hash and iteration in the authorization file written with -o - also when that file "
+                   "already holds the authorization of another image - is SHA-256 over the areas in address order",
+            examples=[(0, dict(i=0)), (1, dict(i=4)), (0, dict(i=2)), (2, dict(i=1)), (3, dict(i=3)), (3, dict(i=0))])
 def signapp_ops(i: int) -> bool:
     """
     pre: 0 <= i < len(IMAGES)
     post: _
     """
     from sim.base import c_boundary
-    op = ["hash", "message"][part()]
+    p = part()
+    op = "hash" if p == 0 else "message"
 
     def body(i):
+        import json as real_json
+        import admin.signer_authorization as sa
         fs = MemFS()
         fs.files["/img/app.hex"] = hex_lines(IMAGES[i][1], [7])
+        out = "/out/auth.json"
+        if p == 3:
+            other = expected_hash(IMAGES[(i + 1) % len(IMAGES)][1]).hex()
+            fs.files[out] = [real_json.dumps({"version": 1, "signer": {"hash": other, "iteration": 3},
+                                              "signatures": ["3006020101020102"]})]
         printed = []
-        saved = (signapp.info, hp.__dict__.get("open"), real_sys.argv)
+        saved = (signapp.info, hp.__dict__.get("open"), real_sys.argv, signapp.isfile, sa.__dict__.get("open"))
         signapp.info = lambda s, *a, **k: printed.append(str(s))
         hp.open = fs.open
-        real_sys.argv = ["signapp", op, "-a", "/img/app.hex"] + (["-i", "7"] if op == "message" else [])
+        sa.open = fs.open
+        signapp.isfile = lambda path: path in fs.files or path in fs.written
+        real_sys.argv = ["signapp", op, "-a", "/img/app.hex"] + (["-i", "7"] if op == "message" else []) + (["-o", out] if p >= 2 else [])
         code = None
         try:
             signapp.main()
@@ -314,11 +326,13 @@ def signapp_ops(i: int) -> bool:
             code = e.code
         finally:
             signapp.info = saved[0]
-            if saved[1] is None:
-                if "open" in hp.__dict__:
-                    del hp.open
-            else:
-                hp.open = saved[1]
+            signapp.isfile = saved[3]
+            for mod, val in ((hp, saved[1]), (sa, saved[4])):
+                if val is None:
+                    if "open" in mod.__dict__:
+                        del mod.open
+                else:
+                    mod.open = val
             real_sys.argv = saved[2]
         h = expected_hash(IMAGES[i][1]).hex()
         text = "\n".join(printed)
@@ -326,5 +340,11 @@ def signapp_ops(i: int) -> bool:
             return False
         if op == "hash":
             return ("Computed hash: " + h) in text
-        return ("RSK_powHSM_signer_%s_iteration_7" % h) in text
+        if p == 1:
+            return ("RSK_powHSM_signer_%s_iteration_7" % h) in text
+        # -o: the file written holds THIS image's hash and the iteration given (a fresh authorization: no signatures)
+        if out not in fs.written:
+            return False
+        doc = real_json.loads(fs.written[out])
+        return doc.get("signer") == {"hash": h, "iteration": 7} and doc.get("signatures") == [] and doc.get("version") == 1
     return c_boundary(body)(i)
